@@ -76,6 +76,58 @@ def tokJ : Tok → Json
   | .rparen => Json.arr #[Json.str "RPAREN", Json.str ")"]
   | .comma => Json.arr #[Json.str "COMMA", Json.str ","]
 
+/-- derivation trees as JSON arrays: `["expr", t, tl]`, `["etNil"]`, `["etCons", "+", t, tl]`,
+`["num", 3]`, `["ident", "N"]`, `["call1", "floor", a]`, ... ; the result is packed as a
+sigma over the nonterminal and unpacked with the expected index. -/
+def addOpOfS : String → Except String AddOp
+  | "+" => pure .plus | "-" => pure .minus
+  | s => throw s!"bad additive operator {s}"
+def mulOpOfS : String → Except String MulOp
+  | "*" => pure .star | "/" => pure .slash | "//" => pure .dslash | "%" => pure .percent
+  | s => throw s!"bad multiplicative operator {s}"
+def fn1OfS : String → Except String Fn1
+  | "floor" => pure .floor | "ceiling" => pure .ceiling | "Abs" => pure .abs | "sign" => pure .sign
+  | "sqrt" => pure .sqrt
+  | s => throw s!"bad unary function {s}"
+def fn2OfS : String → Except String Fn2
+  | "mod" => pure .mod | "Mod" => pure .Mod
+  | s => throw s!"bad binary function {s}"
+def fnNOfS : String → Except String FnN
+  | "max" => pure .max | "Max" => pure .Max | "min" => pure .min | "Min" => pure .Min
+  | s => throw s!"bad variadic function {s}"
+
+def castD {n : NT} (m : NT) (d : D n) : Except String (D m) :=
+  if h : n = m then pure (h ▸ d) else throw "derivation tree: wrong nonterminal"
+
+partial def derivOfJson (j : Json) : Except String (Sigma D) := do
+  let a ← j.getArr?
+  let tag ← (a[0]?.getD Json.null).getStr?
+  let sub (i : Nat) (m : NT) : Except String (D m) := do
+    let ⟨_, d⟩ ← derivOfJson (a[i]?.getD Json.null)
+    castD m d
+  match tag with
+  | "expr" => return ⟨_, .expr (← sub 1 .term) (← sub 2 .exprTail)⟩
+  | "etNil" => return ⟨_, .etNil⟩
+  | "etCons" => return ⟨_, .etCons (← addOpOfS (← a[1]!.getStr?)) (← sub 2 .term) (← sub 3 .exprTail)⟩
+  | "term" => return ⟨_, .term (← sub 1 .unary) (← sub 2 .termTail)⟩
+  | "ttNil" => return ⟨_, .ttNil⟩
+  | "ttCons" => return ⟨_, .ttCons (← mulOpOfS (← a[1]!.getStr?)) (← sub 2 .unary) (← sub 3 .termTail)⟩
+  | "neg" => return ⟨_, .neg (← sub 1 .unary)⟩
+  | "upow" => return ⟨_, .upow (← sub 1 .power)⟩
+  | "prim" => return ⟨_, .prim (← sub 1 .primary)⟩
+  | "pow" => return ⟨_, .pow (← sub 1 .primary) (← sub 2 .unary)⟩
+  | "num" => return ⟨_, .num (← a[1]!.getNat?)⟩
+  | "ident" => return ⟨_, .ident (← a[1]!.getStr?)⟩
+  | "paren" => return ⟨_, .paren (← sub 1 .expr)⟩
+  | "call1" => return ⟨_, .call1 (← fn1OfS (← a[1]!.getStr?)) (← sub 2 .expr)⟩
+  | "call2" => return ⟨_, .call2 (← fn2OfS (← a[1]!.getStr?)) (← sub 2 .expr) (← sub 3 .expr)⟩
+  | "callN" => return ⟨_, .callN (← fnNOfS (← a[1]!.getStr?)) (← sub 2 .args)⟩
+  | "argsNil" => return ⟨_, .argsNil⟩
+  | "argsCons" => return ⟨_, .argsCons (← sub 1 .expr) (← sub 2 .argsTail)⟩
+  | "atNil" => return ⟨_, .atNil⟩
+  | "atCons" => return ⟨_, .atCons (← sub 1 .expr) (← sub 2 .argsTail)⟩
+  | t => throw s!"bad derivation node {t}"
+
 def optJ {α} (f : α → Json) : Option α → Json
   | none => Json.null
   | some a => f a
@@ -113,6 +165,18 @@ def handle : Handler := fun m j =>
       | some e =>
         return obj [("r", Json.str "ok"), ("tree", exprToJson e),
                     ("vals", Json.arr (envs.map (fun env => ratJ (eval env e))).toArray)]
+  | "sym.derive" => some do
+      -- a derivation tree of the documented grammar: its sentence, its meaning, the parser on it
+      let ⟨_, d0⟩ ← derivOfJson (← j.getObjVal? "d")
+      let d ← castD NT.expr d0
+      let envs ← getEnvs j "envs"
+      let ts := d.flatten
+      let e : Expr := d.sem
+      return obj [("s", Json.str (String.ofList (render ts))),
+                  ("tokens", Json.arr (ts.map tokJ).toArray),
+                  ("sem", exprToJson e),
+                  ("parsed", optJ exprToJson (parseTokens ts)),
+                  ("vals", Json.arr (envs.map (fun env => ratJ (eval env e))).toArray)]
   | "sym.pp" => some do
       -- the model printer: rendered text, the tokens, what the model parser makes of them
       let e ← exprOfJson (← j.getObjVal? "e")
